@@ -61,17 +61,17 @@ const missing = "__missing__"
 
 func c19ValueSets() map[string][]interface{} {
 	return map[string][]interface{}{
-		"empty":     {},
-		"one":       {3.0},
-		"all-equal": {2.0, 2.0, 2.0, 2.0},
-		"ties":      {"a", "b", "a", "b", "c", "c", "d"},
-		"numbers":   {1.0, 2.5, -3.0, 0.0, 7.0, 7.0, 12.5, -0.5, 5.0, 10.0},
-		"negatives": {-1.0, -5.0, -5.5, -10.0, -0.25},
-		"mixed":     {1.0, "x", nil, missing, true, false, []interface{}{1.0}, map[string]interface{}{"k": 1.0}, 2.0, "x", "y", 2.0, 2.0, missing, -4.0},
+		"empty":      {},
+		"one":        {3.0},
+		"all-equal":  {2.0, 2.0, 2.0, 2.0},
+		"ties":       {"a", "b", "a", "b", "c", "c", "d"},
+		"numbers":    {1.0, 2.5, -3.0, 0.0, 7.0, 7.0, 12.5, -0.5, 5.0, 10.0},
+		"negatives":  {-1.0, -5.0, -5.5, -10.0, -0.25},
+		"mixed":      {1.0, "x", nil, missing, true, false, []interface{}{1.0}, map[string]interface{}{"k": 1.0}, 2.0, "x", "y", 2.0, 2.0, missing, -4.0},
 		"no-numbers": {"x", nil, missing, true, []interface{}{}, "x"},
-		"missing":   {missing, missing, missing},
-		"strings":   {"p", "q", "p", "", "r", "p", "q"},
-		"maps":      {map[string]interface{}{"a": 1.0, "b": 2.0}, map[string]interface{}{"a": "s"}, map[string]interface{}{}, 5.0, missing},
+		"missing":    {missing, missing, missing},
+		"strings":    {"p", "q", "p", "", "r", "p", "q"},
+		"maps":       {map[string]interface{}{"a": 1.0, "b": 2.0}, map[string]interface{}{"a": "s"}, map[string]interface{}{}, 5.0, missing},
 	}
 }
 
